@@ -1906,12 +1906,97 @@ def oracle_c14(ctx):
         changed = [hex(k) for k in commands.INDEX_MAPPING if commands.INDEX_MAPPING.get(k) is not before.get(k)]
         res.violation('INDEX_MAPPING changes when an application subclasses a method class', {'fn': 'c14_case', 'args': pyrepr(('subclass',))},
                       'the 64 specification classes', 'entries %s replaced' % changed)
+    # instances say what their class says: constructed with each flag argument set, and decoded from the wire
+    for (cname, cid), methods in S.SPEC.items():
+        for (mname, mid, resp, args) in methods:
+            name = S.camel(cname) + '.' + S.camel(mname)
+            res.case('instances ' + name, tag='instance-level facts')
+            k, bad = catching(c14_instance_case, name)
+            if k != 'ok' or bad:
+                res.violation('%s: an instance disagrees with the specification' % name, {'fn': 'c14_instance_case', 'args': pyrepr((name,))},
+                              bad[0] if k == 'ok' else 'oracle runs', bad[1] if k == 'ok' else repr(bad))
+    # exactly the 64 methods are REACHABLE through the mapping: by subscript, by get, by the decoder
+    spec_ids = sorted(cid for _, cid in S.SPEC)
+    keys = [cid << 16 | mid for cid in spec_ids for mid in range(65536 if ctx.thorough else 1024)]
+    keys += [cid << 16 | mid for cid in range(256) for mid in range(256 if ctx.thorough else 128)]
+    keys += [k ^ (1 << b) for k in seen for b in range(32)] + [k + d for k in seen for d in (-2, -1, 1, 2, 65536, -65536)]
+    keys += [ctx.gen.r.getrandbits(32) for _ in range(2000)] + [-1, 2 ** 32, 2 ** 32 + 655370]
+    for key in keys:
+        if key in seen:
+            continue
+        res.case('reach %x' % key, tag='unspecified index')
+        bad = c14_reach_case(key)
+        if bad:
+            res.violation('index %s reaches a method class although the specification has no such method' % hex(key),
+                          {'fn': 'c14_reach_case', 'args': pyrepr((key,))}, bad[0], bad[1])
+            break
     res.notes.append('exhaustive over %d methods and 14 properties' % len(seen))
     return res
 
 
 @replayer
 def c14_case(name):
+    return None
+
+
+def c14_spec_of(name):
+    S = spec_tables
+    for (cname, cid), methods in S.SPEC.items():
+        for (mname, mid, resp, args) in methods:
+            if S.camel(cname) + '.' + S.camel(mname) == name:
+                return cid, mid, [S.camel(cname) + '.' + S.camel(r) for r in resp], args
+    raise KeyError(name)
+
+
+@replayer
+def c14_instance_case(name):
+    """class-level catalogue facts read through INSTANCES: default-constructed, with each flag argument set,
+    with each other argument given, and decoded from their own encoding"""
+    S = spec_tables
+    cid, mid, replies, args = c14_spec_of(name)
+    key = cid << 16 | mid
+    cls = commands.INDEX_MAPPING[key]
+    insts = [('default', cls())]
+    for (a, t, d) in args:
+        vals = {'bit': [True, False], 'short': [0, 1], 'octet': [1], 'long': [1], 'longlong': [1], 'shortstr': ['x'], 'longstr': ['x'],
+                'table': [{'a': 1}]}.get(t, [])
+        for v in vals:
+            k, o = catching(cls, **{S.pyname(a): v})
+            if k == 'ok':
+                insts.append(('%s=%r' % (a, v), o))
+    for label, o in list(insts):
+        k, b = catching(frame.marshal, o, 1)
+        if k == 'ok':
+            k2, r = catching(frame.unmarshal, b)
+            if k2 == 'ok':
+                insts.append(('decoded ' + label, r[2]))
+    for label, o in insts:
+        got = (type(o) is cls, o.synchronous, list(o.valid_responses), o.index, o.frame_id, o.name, list(o.__slots__), [o.amqp_type(s_) for s_ in o.__slots__])
+        want = (True, bool(replies), replies, key, mid, name, [S.pyname(a[0]) for a in args], [a[1] for a in args])
+        if got != want or o.synchronous is not bool(replies):
+            return ('%s(%s): %r' % (name, label, want), repr(got))
+    return None
+
+
+@replayer
+def c14_reach_case(key):
+    """an index the specification does not define reaches no method class: not by subscript, not by get,
+    not through the decoder"""
+    try:
+        c = commands.INDEX_MAPPING[key]
+        return ('INDEX_MAPPING[%s] raises KeyError' % hex(key), repr(c))
+    except KeyError:
+        pass
+    except Exception as e:  # noqa
+        return ('INDEX_MAPPING[%s] raises KeyError' % hex(key), repr(e))
+    if commands.INDEX_MAPPING.get(key) is not None or key in commands.INDEX_MAPPING:
+        return ('%s is not a key' % hex(key), 'get / in find it')
+    if 0 <= key < 2 ** 32:
+        for payload in (b'', b'\x00' * 40):
+            data = b'\x01\x00\x01' + struct.pack('>I', 4 + len(payload)) + struct.pack('>I', key) + payload + b'\xce'
+            k, r = catching(frame.unmarshal, data)
+            if k == 'ok':
+                return ('a method frame with index %s is refused' % hex(key), 'decoded as %s' % type(r[2]).__name__)
     return None
 
 
